@@ -336,6 +336,29 @@ func genHeaderlessDependentNest(name string, k int) string {
 	return b.String()
 }
 
+// (j) loop bounds, starts and steps whose arithmetic is undefined for the values the analysis
+// can see at compile time: a divisor / modulus that is an expression evaluating to zero,
+// shifts by huge or negative-looking amounts, MinInt / -1. The program compiles (it would
+// panic or wrap at run time); analysing it must not crash. k selects how many variants.
+func genHostileBoundArith(name string, k int) string {
+	variants := []string{
+		"z := 0\n\td := z * 2\n\tfor i := 0; i < 100/d; i++ {\n\t\ts += i\n\t}",
+		"q := 3\n\td := q - 3\n\tfor i := 0; i < 50%d; i++ {\n\t\ts += i\n\t}",
+		"z := 0\n\tfor i := 1 / (z + z + 0*n); i < 10; i++ {\n\t\ts += i\n\t}",
+		"z := 0\n\tfor i := 0; i < 64; i += 8 / (z * z) {\n\t\ts += i\n\t}",
+		"m := -9223372036854775808\n\to := -1\n\tfor i := 0; i < m/o; i++ {\n\t\ts += i\n\t\tif i > 3 {\n\t\t\tbreak\n\t\t}\n\t}",
+		"sh := 200\n\tfor i := 0; i < 1<<sh; i++ {\n\t\ts += i\n\t\tif i > 3 {\n\t\t\tbreak\n\t\t}\n\t}",
+		"z := 0\n\td := 4*z + 0\n\tfor i := 100; i > 7/d; i -= 3 {\n\t\ts += i\n\t}",
+		"z := 0\n\tfor i := 0; i <= 9/(2/(z+3)); i++ {\n\t\ts += i\n\t}",
+	}
+	var b strings.Builder
+	for v := 0; v < k && v < len(variants); v++ {
+		fmt.Fprintf(&b, "func %s_v%d(n int) (s int) {\n\t%s\n\treturn s\n}\n\n", name, v, variants[v])
+	}
+	fmt.Fprintf(&b, "func %s(n int) int { return n }\n\n", name)
+	return b.String()
+}
+
 // (d) functions with an exact number of basic blocks. A conditional increment contributes
 // two blocks (if.then, if.done); an if/else contributes three; the entry block is one.
 func genBlocks(name string, blocks int) string {
@@ -366,6 +389,7 @@ func fpFamilies() []fpFamily {
 		{name: "dependent-loop-chain", quick: []int{50, 100, 200, 400}, thor: []int{25, 50, 100, 200, 400, 800}, gen: genLoopChain},
 		{name: "dependent-start-nest", quick: []int{8, 16, 32, 64}, thor: []int{8, 16, 32, 64, 100}, gen: genDependentStartNest},
 		{name: "headerless-dependent-nest", quick: []int{16, 24, 32, 40}, thor: []int{16, 24, 32, 40, 48, 60}, gen: genHeaderlessDependentNest},
+		{name: "hostile-bound-arithmetic", quick: []int{2, 4, 8}, thor: []int{2, 4, 8}, gen: genHostileBoundArith},
 		{name: "deep-parens", quick: []int{250, 500, 1000, 2000}, thor: []int{250, 500, 1000, 2000, 4000}, gen: genDeepParens},
 		{name: "nested-closures", quick: []int{12, 25, 50}, thor: []int{12, 25, 50, 100}, gen: genNestedClosures},
 		// sizeByParam: the 40 uses of the innermost variable dominate the SSA size, so the ladder
